@@ -219,6 +219,94 @@ ts_mod!(NMs, NaiveDateTime, "naive", "ms", 1_000, chrono::naive::serde::ts_milli
 ts_mod!(NUs, NaiveDateTime, "naive", "us", 1_000_000, chrono::naive::serde::ts_microseconds, chrono::naive::serde::ts_microseconds_option, n_naive, n_wrap);
 ts_mod!(NNs, NaiveDateTime, "naive", "ns", 1_000_000_000, chrono::naive::serde::ts_nanoseconds, chrono::naive::serde::ts_nanoseconds_option, n_naive, n_wrap);
 
+// ---- `#[serde(with = "ts_*")]` fields ------------------------------------------------------------------
+// The shape `#[derive(Serialize, Deserialize)] struct W { #[serde(with = "m")] t: V }` expands to
+// (serde_derive: `serialize_struct` + `serialize_field("t", &__SerializeWith)`, `deserialize_struct` with a visitor
+// whose `visit_seq` / `visit_map` ask for a `__DeserializeWith` element whose `Deserialize` is `m::deserialize`),
+// written out by hand for all sixteen modules at once: the harness's `serde` dependency is built without the
+// `derive` feature (harness/Cargo.toml is not editable in a builder round).  What this adds over calling
+// `M::de(&mut Deserializer)` directly: the module runs in FIELD position of a struct, i.e. behind
+// serde_json's `MapAccess::next_value_seed` (`{"t":v}`) and bincode's `SeqAccess::next_element_seed`.
+struct W<M: TsMod>(M::V);
+struct WOp<M: TsMod>(Option<M::V>);
+struct SerWith<'a, M: TsMod>(&'a M::V);
+struct SerWithO<'a, M: TsMod>(&'a Option<M::V>);
+struct DeWith<M: TsMod>(M::V);
+struct DeWithO<M: TsMod>(Option<M::V>);
+impl<M: TsMod> Serialize for SerWith<'_, M> {
+    fn serialize<S: Serializer>(&self, s: S) -> Result<S::Ok, S::Error> {
+        M::ser(self.0, s)
+    }
+}
+impl<M: TsMod> Serialize for SerWithO<'_, M> {
+    fn serialize<S: Serializer>(&self, s: S) -> Result<S::Ok, S::Error> {
+        M::ser_o(self.0, s)
+    }
+}
+impl<'de, M: TsMod> Deserialize<'de> for DeWith<M> {
+    fn deserialize<D: Deserializer<'de>>(d: D) -> Result<Self, D::Error> {
+        M::de(d).map(DeWith)
+    }
+}
+impl<'de, M: TsMod> Deserialize<'de> for DeWithO<M> {
+    fn deserialize<D: Deserializer<'de>>(d: D) -> Result<Self, D::Error> {
+        M::de_o(d).map(DeWithO)
+    }
+}
+impl<M: TsMod> Serialize for W<M> {
+    fn serialize<S: Serializer>(&self, s: S) -> Result<S::Ok, S::Error> {
+        use serde::ser::SerializeStruct;
+        let mut st = s.serialize_struct("W", 1)?;
+        st.serialize_field("t", &SerWith::<M>(&self.0))?;
+        st.end()
+    }
+}
+impl<M: TsMod> Serialize for WOp<M> {
+    fn serialize<S: Serializer>(&self, s: S) -> Result<S::Ok, S::Error> {
+        use serde::ser::SerializeStruct;
+        let mut st = s.serialize_struct("WOp", 1)?;
+        st.serialize_field("t", &SerWithO::<M>(&self.0))?;
+        st.end()
+    }
+}
+struct FieldVisitor<X>(std::marker::PhantomData<X>);
+impl<'de, X: Deserialize<'de>> Visitor<'de> for FieldVisitor<X> {
+    type Value = X;
+    fn expecting(&self, f: &mut std::fmt::Formatter) -> std::fmt::Result {
+        f.write_str("struct with the field t")
+    }
+    fn visit_seq<A: serde::de::SeqAccess<'de>>(self, mut seq: A) -> Result<X, A::Error> {
+        match seq.next_element::<X>()? {
+            Some(x) => Ok(x),
+            None => Err(serde::de::Error::invalid_length(0, &self)),
+        }
+    }
+    fn visit_map<A: serde::de::MapAccess<'de>>(self, mut map: A) -> Result<X, A::Error> {
+        let mut t: Option<X> = None;
+        while let Some(k) = map.next_key::<String>()? {
+            if k == "t" {
+                if t.is_some() {
+                    return Err(serde::de::Error::duplicate_field("t"));
+                }
+                t = Some(map.next_value::<X>()?);
+            } else {
+                map.next_value::<serde::de::IgnoredAny>()?;
+            }
+        }
+        t.ok_or_else(|| serde::de::Error::missing_field("t"))
+    }
+}
+impl<'de, M: TsMod> Deserialize<'de> for W<M> {
+    fn deserialize<D: Deserializer<'de>>(d: D) -> Result<Self, D::Error> {
+        d.deserialize_struct("W", &["t"], FieldVisitor::<DeWith<M>>(std::marker::PhantomData)).map(|x| W(x.0))
+    }
+}
+impl<'de, M: TsMod> Deserialize<'de> for WOp<M> {
+    fn deserialize<D: Deserializer<'de>>(d: D) -> Result<Self, D::Error> {
+        d.deserialize_struct("WOp", &["t"], FieldVisitor::<DeWithO<M>>(std::marker::PhantomData)).map(|x| WOp(x.0))
+    }
+}
+
 // ---- generators -------------------------------------------------------------------------------------
 const FRACS: [u32; 14] = [
     0, 1, 999, 1_000, 1_001, 999_999, 1_000_000, 1_000_001, 999_000_000, 999_999_000, 999_999_999, 500_000_000,
@@ -451,6 +539,43 @@ fn run_ints<M: TsMod>(c: &mut Ctx, n: usize) {
             );
         }
         c.count_n("call:ts.json.de", 2);
+        // the module in FIELD position of a struct (`#[serde(with = "ts_*")] t`): `{"t":v}`
+        let doc = format!("{{\"t\":{text}}}");
+        let rw = guard(|| serde_json::from_str::<W<M>>(&doc).map(|x| M::naive(&x.0)));
+        let rwo = guard(|| serde_json::from_str::<WOp<M>>(&doc).map(|x| x.0.map(|y| M::naive(&y))));
+        if &sde(&rw) != want || &sdeo(&rwo) != want {
+            c.fail(
+                "as a struct field through serde_json the module answers differently than its visitor",
+                &format!("{tg}.{unit} {doc}: field={} option field={} visitor={want}", sde(&rw), sdeo(&rwo)),
+            );
+        }
+        c.count_n("call:ts.field.json.de", 2);
+        if v >= i64::MIN as i128 && v <= i64::MAX as i128 {
+            let bytes = (v as i64).to_le_bytes();
+            let rw = guard(|| bincode::deserialize::<W<M>>(&bytes).map(|x| M::naive(&x.0)));
+            let mut ob = vec![1u8];
+            ob.extend_from_slice(&bytes);
+            let rwo = guard(|| bincode::deserialize::<WOp<M>>(&ob).map(|x| x.0.map(|y| M::naive(&y))));
+            if sde(&rw) != shown[0] || sdeo(&rwo) != shown[0] {
+                c.fail(
+                    "as a struct field through bincode the module answers differently than visit_i64",
+                    &format!("{tg}.{unit} {v}: field={} option field={} visitor={}", sde(&rw), sdeo(&rwo), shown[0]),
+                );
+            }
+            // and what was read is written back as the same document / the same bytes
+            if let Ok(Ok(x)) = guard(|| bincode::deserialize::<W<M>>(&bytes)) {
+                let back = guard(|| (serde_json::to_string(&x).ok(), bincode::serialize(&x).ok()));
+                let o = WOp::<M>(Some(x.0.clone()));
+                let backo = guard(|| (serde_json::to_string(&o).ok(), bincode::serialize(&o).ok()));
+                if back != Ok((Some(doc.clone()), Some(bytes.to_vec()))) || backo != Ok((Some(doc.clone()), Some(ob.clone()))) {
+                    c.fail(
+                        "a struct field read from an integer is not written back as that integer",
+                        &format!("{tg}.{unit} {v}: {:?} / {:?}", back, backo),
+                    );
+                }
+            }
+            c.count_n("call:ts.field.bincode", 4);
+        }
         if v <= i64::MAX as i128 {
             let bytes = (v as i64).to_le_bytes();
             let rb = guard(|| {
@@ -734,6 +859,23 @@ fn str_corr<T: Serialize + for<'a> Deserialize<'a>>(
         Ok(Ok(s)) => {
             let t = s.trim_matches('"').to_string();
             c.op(&format!("{pfx}.ser {arg}"), &hex(t.as_bytes()));
+            // wire oracles (audit2 LOW-1): the JSON document is the text between two quotes, nothing escaped;
+            // the bincode document is the u64-LE byte length followed by the very same text
+            if s != format!("\"{t}\"") || t.bytes().any(|b| b == b'"' || b == b'\\' || b < 0x20 || b >= 0x7f) {
+                c.fail("wire: JSON form of a string type is not the quoted plain ASCII text", &format!("{pfx} {arg} -> {s}"));
+            }
+            c.count_n("call:wire.str.bincode", 1);
+            match guard(|| bincode::serialize(v)) {
+                Ok(Ok(b)) => {
+                    let mut want = (t.len() as u64).to_le_bytes().to_vec();
+                    want.extend_from_slice(t.as_bytes());
+                    if b != want {
+                        c.fail("wire: bincode bytes of a string type differ from u64-LE length ++ text", &format!("{pfx} {arg} -> {}", hex(&b)));
+                    }
+                }
+                Ok(Err(e)) => c.fail("wire: bincode refuses a string type that serde_json writes", &format!("{pfx} {arg}: {e}")),
+                Err(()) => c.fail("wire: bincode serialization of a string type panics", &format!("{pfx} {arg}")),
+            }
             t
         }
         Ok(Err(_)) => {
@@ -758,6 +900,22 @@ fn str_corr<T: Serialize + for<'a> Deserialize<'a>>(
             Err(()) => "panic".to_string(),
         };
         c.op(&format!("{pfx}.de {}", hex(t.as_bytes())), &shown);
+        // the same text (original and edited) reaches `visit_str` through bincode too: same answer
+        let mut bytes = (t.len() as u64).to_le_bytes().to_vec();
+        bytes.extend_from_slice(t.as_bytes());
+        let rb = guard(|| bincode::deserialize::<T>(&bytes));
+        let shown_b = match &rb {
+            Ok(Ok(x)) => format!("ok {}", show(x)),
+            Ok(Err(_)) => "err".to_string(),
+            Err(()) => "panic".to_string(),
+        };
+        c.count_n("call:wire.str.bincode.de", 1);
+        if shown_b != shown {
+            c.fail(
+                "wire: a text read through bincode gives another answer than through serde_json",
+                &format!("{pfx} {:?}: json {shown}, bincode {shown_b}", t),
+            );
+        }
     }
 }
 fn show_date(d: &NaiveDate) -> String {
